@@ -116,6 +116,8 @@ void cmb_resourceguard_terminate(struct cmb_resourceguard *rgp)
     cmi_hashheap_terminate((struct cmi_hashheap *)rgp);
 }
 
+static void wakeup_event_resource(void *vp, void *arg);
+
 /*
  * cmb_resourceguard_wait - Enqueue and suspend the calling process until it
  * reaches the front of the priority queue and its demand function returns true.
@@ -155,7 +157,18 @@ int64_t cmb_resourceguard_wait(struct cmb_resourceguard *rgp,
 
     /* Back here, possibly much later. Return the signal that resumed us. */
     if (sig != CMB_PROCESS_SUCCESS) {
-        cmi_hashheap_cancel((struct cmi_hashheap *)rgp, key);
+        if (!cmi_hashheap_cancel((struct cmi_hashheap *)rgp, key)) {
+            /*
+             * No longer on the list. If that is because we had just been
+             * offered the resource (wakeup still pending) and something else,
+             * e.g. a timeout, got to us first: withdraw the pending wakeup so
+             * it cannot resume us out of some later call, and pass the offer on.
+             */
+            if (cmb_event_pattern_cancel(wakeup_event_resource, pp,
+                                         CMB_ANY_OBJECT) > 0u) {
+                (void)cmb_resourceguard_signal(rgp);
+            }
+        }
     }
 
     cmb_assert_debug(!cmi_hashheap_is_enqueued((struct cmi_hashheap *)rgp, key));
